@@ -32,12 +32,19 @@ def _c13_late_by_one(v):
     (or, for gentrace round trips, above the tick the generator produced it in).
     A reader that is late for any other reason ('<' instead of '<=', an off-by-one
     cursor) is late also where that quotient is exact, and is not matched."""
-    if v.get("kind") not in ("late-delivery", "roundtrip-late"):
+    if v.get("kind") not in ("late-delivery", "roundtrip-late", "never-delivered"):
         return False
     d = v.get("detail") or {}
     try:
         text, tps = d["text"], int(d["tps"])
-        expected, got = int(d["expected_tick"]), int(d["delivered_tick"])
+        expected = int(d["expected_tick"])
+        if v["kind"] == "never-delivered":
+            # the same lateness seen at the run's end: due in the very last tick, one tick late = never
+            if expected != int(d["run_ticks"]) - 1:
+                return False
+            got = expected + 1
+        else:
+            got = int(d["delivered_tick"])
     except (KeyError, TypeError, ValueError):
         return False
     if got != expected + 1:
